@@ -42,7 +42,7 @@ KERNELS = {
     "C37": ["k_do_use_prefix", "k_use_with"],
     "C18": ["k_formal_args_eval", "k_callable_scopes"],
     "C20": ["k_bubble", "k_dest_start"],
-    "C21": ["k_error_and_drop", "k_dest_start"],
+    "C21": ["k_error_and_drop", "k_dest_start", "k_declaration_arms"],
     "C26": ["k_str_slice", "k_str_insert", "k_str_index_length"],
     "C29": ["k_math_bounding", "k_math_percentage", "k_math_clamp", "k_css_clamp", "k_find_extreme"],
     "C28": ["k_index_of", "k_set_nth", "k_append_join", "k_list_separator", "k_list_index", "k_nth", "k_get_list"],
@@ -522,6 +522,15 @@ STRUCTURAL_PROBES["k_callable_scopes"] = [
     ("@mixin m($a) { c: $a } $y: 2; a { $y: 3; @include m($y) }", "c: 3"),
     ("@mixin m { & b { c: d } } a { @include m }", "a b { c: d; }"),
     ("@function f() { @if true { @return 1 } @return 2 } a { b: f() }", "b: 1"),
+]
+STRUCTURAL_PROBES["k_declaration_arms"] = [
+    ("a { b: 1 + 1; c: null; d: e }", "a { b: 2; d: e; }"),
+    ("a { --x: #{1 + 1}; }", "a { --x: 2; }"),
+    ("a { font: bold { family: serif; size: 1px } }", "a { font: bold; font-family: serif; font-size: 1px; }"),
+    ("a { font: { family: serif } }", "a { font-family: serif; }"),
+    ("a { b: 1px + 1s }", "<error>"),
+    ("a { b: (x: y) }", "<error>"),
+    ("a { b: $undefined }", "<error>"),
 ]
 STRUCTURAL_PROBES["k_module_init"] = [
     (({"a.scss": '@use "lib";\n.main { c: d }\n', "_lib.scss": "/* hello */\n.lib { /* in rule */ a: b }\n"}, "[compressed]a.scss"), ".lib{a:b}.main{c:d}"),
